@@ -35,7 +35,7 @@ Section StepsU.
     cbn [Unquote.unq_loop].
     destruct (N.eqb_spec c ch_cr); [contradiction|].
     destruct (N.eqb_spec c ch_nl); [contradiction|].
-    rewrite Huc.
+    unfold unq_first. rewrite Huc.
     replace ((sur_high <=? Z.of_N v)%Z && (Z.of_N v <? sur_end)%Z) with false
       by (unfold sur_high, sur_end; lia).
     replace (Z.of_N v <? 0)%Z with false by lia.
